@@ -142,6 +142,47 @@ func VxC02() {
 		gv, gok := Select(xs, k)
 		vxAssert(gv == wv && gok == wok, "v, ok := {e for x in xs if cond} differs from the selection loop")
 		vxAssert(Select1(xs, k) == wv, "{e for x in xs if cond} differs from the selection loop")
+	case 17:
+		zs := vxSlice(vxConcrete(vxIntRange(0, L)))
+		var want []int
+		for _, z := range zs { // the last for-phrase is the outermost loop, the first the innermost
+			for _, y := range ys {
+				for _, x := range xs {
+					want = append(want, x*100+y*10+z)
+				}
+			}
+		}
+		vxSameSlice(ListCompr3(xs, ys, zs), want, "[e for x in xs for y in ys for z in zs]")
+	case 18:
+		rows := [][]int{xs, ys}
+		got := ListComprDep(rows)
+		gt := vxTake()
+		var want []int
+		for _, row := range rows {
+			for _, x := range row {
+				want = append(want, f(3, x))
+			}
+		}
+		vxSameSlice(got, want, "[f(x) for x in row for row in rows]")
+		vxSameSlice(gt, vxTake(), "[f(x) for x in row for row in rows] (evaluation trace)")
+	case 19:
+		zs := vxSlice(vxConcrete(vxIntRange(0, L)))
+		got := Exists3(xs, ys, zs)
+		gt := vxTake()
+		want := false
+	outer:
+		for _, z := range zs {
+			for _, y := range ys {
+				for _, x := range xs {
+					if cond(4, x*100+y*10+z) {
+						want = true
+						break outer
+					}
+				}
+			}
+		}
+		vxAssert(got == want, "{for x in xs if cond for y in ys for z in zs} differs from the nested existence loops")
+		vxSameSlice(gt, vxTake(), "{for x in xs if cond for y in ys for z in zs} (evaluation trace)")
 	case 15:
 		vxAssert(CommandCall(a, b) == a*7+b+1, "command-style call differs from the ordinary call")
 	case 16:
